@@ -125,7 +125,7 @@ class MapGen:
         # locations
         locs = []
         for i in range(nloc):
-            if i == 63:
+            if i == 63 and not self.opts.get("no_anywhere"):
                 locs.append({"_left_x1": 0, "_top_y1": 0, "_right_x2": 4096, "_bottom_y2": 4096,
                              "_string_id": self.sid("Anywhere"),
                              "_elevation_flags": rng.choice([0, 0, 0x15, rng.randrange(64)]) if self.opts.get("anywhere_flags") else 0})
